@@ -80,8 +80,10 @@ theorem gradleLineGo_eq (raw : Line) : gradleLineGo raw = some (gradleLine raw) 
         by_cases hc : '=' ∈ v
         · obtain ⟨ver, rest, h3⟩ := cutAt_some_of_mem '=' v hc
           simp [hc, splitN2, h3]
+          try (split <;> rfl)
         · have h3 := cutAt_none_of_not_mem '=' v hc
           simp [hc, h3]
+          try (split <;> rfl)
 
 theorem mapM_gradleLineGo (ls : List Line) : ls.mapM gradleLineGo = some (ls.map gradleLine) := by
   induction ls with
